@@ -615,6 +615,8 @@ class _Run:
                 raise TypeErr(f"_weight_int8pack_mm needs 2-D activations, got {a}")
             if a.labels[-1] != w.labels[-1]:
                 raise TypeErr(f"_weight_int8pack_mm contracts {a} with {w}")
+            if getattr(w, "strides", ()):
+                raise TypeErr("_weight_int8pack_mm is given weights that may not be contiguous (quantize_weight keeps the layout of a transposed argument) without contiguous(): the kernel refuses them with a RuntimeError (platform table)")
             if "lastdim" in getattr(a, "strides", ()):
                 raise TypeErr("_weight_int8pack_mm is given activations that may not be contiguous on their last dimension (a transposed 2-D input) without contiguous(): the kernel refuses them with a RuntimeError (platform table)")
             if s.labels != (w.labels[0],):
